@@ -11,6 +11,10 @@ TECH = ('explicit TLA+ specification model-checked with TLC; TLC-emitted '
 
 # property id -> (design_ref, level text, level note, technique suffix)
 CLAIMED = {
+    'C05': ('5/C05, 3.6',
+            'Part 2 (handles): TLC checks OthersStayValid, NoSharedHandle and OnlyOwnerReleases on spec/NcHandles.tla over every open/close/drop/finalise schedule of 3 objects (6 steps quick, 7 thorough) with id recycling; emitted schedules are replayed on real disk files through netcdf(), ioapi(), pncopen() and save() in one forked process each and the logged ids, finalisations (weak references) and reads are validated by spec/NcHandles_Trace.tla.',
+            'Trusted: TLC, weakref observation of finalisation, the read probe. Partial collections are covered in the model only.',
+            'schedule enumeration + trace validation'),
     'C15': ('5/C15, 3.5',
             'TLC checks HistoryFree and RegistryStable on spec/Registry.tla '
             'over every open history (depth 3 quick / 4 thorough) of a pool '
